@@ -234,62 +234,85 @@ def r2(ctx):
 
 
 def r4(ctx):
+    """parameter counts, decided on E6 summaries.
+    Feedback::parameters: the sum, over positions 0..coupled.len() (one per distinct layer), of the payload's own parameters() (0 for a
+    pooling layer).  network::Layer::parameters: per variant the payload's own parameters() (a block is counted by Feedback::parameters)."""
+    from .. import e6
     c = ctx.crate
+    payload_ty = {v["name"]: v["fields"][0]["ty"] for v in c.adts["network::Layer"]["variants"]}
+    # ---- Feedback::parameters
     fn = ctx.fn(FB + "parameters")
-    loops = [x for x in walk(fn["body"]) if x.get("k") == "for"]
-    ok = False
+    E = e6.Exec(c, fn)
+    paths = [p for p in E.run_fn() if p.exit is None or p.exit[0] == "return"]
+    ok_rng = ok_idx = ok_sum = len(paths) == 1
     got = "?"
-    if len(loops) == 1:
-        it = strip(loops[0]["iter"])
-        if it.get("k") == "struct" and it["path"] == "std::ops::Range":
-            fs = dict((a, b) for a, b in it["fs"])
-            got = "%s..%s" % (pretty(strip(fs["start"])), pretty(strip(fs["end"])))
-            ok = got == "0..self.coupled.len()"
-    ctx.check("R10.4", "first-repetition-only", ok, "parameter-range:" + got, c.loc(fn), "for idx in 0..self.coupled.len()",
+    counts = {}
+    if len(paths) == 1:
+        val = paths[0].val if paths[0].exit is None else paths[0].exit[1]
+        ok_sum = isinstance(val, tuple) and len(val) == 4 and val[0] == "loopout" and val[3] == ("lit", "0")
+        if ok_sum:
+            name, lid = val[1], val[2]
+            S = E.loop_summaries[lid]
+            rng = e6.range_of(S["iter"])
+            want_end = ("call", "std::vec::Vec::<T, A>::len", (("field", ("p", "self"), "coupled"),))
+            ok_rng = rng == (("lit", "0"), want_end)
+            got = e6.show(S["iter"], 2)
+            el = ("elem", S["iter"], lid)
+            scrut = ("idx", ("field", ("p", "self"), "layers"), el)
+            for bp in S["paths"]:
+                if bp.exit is not None:
+                    continue
+                vs = e6.variant_of(bp)
+                if scrut not in vs:
+                    ok_idx = False
+                    continue
+                kind = vs[scrut].split("::")[-1]
+                sets = [f for f in bp.eff if f[0] == "set" and f[1] == ("local", name)]
+                if len(sets) != 1 or len([f for f in bp.eff if f[0] != "set"]) > 0:
+                    counts[kind] = False
+                    continue
+                new = sets[0][2]
+                pay = ("payload", scrut, vs[scrut], 0)
+                want_x = ("lit", "0") if kind == "Maxpool" else ("call", payload_ty[kind] + "::parameters", (pay,))
+                good = new == e6.mk_bin("Add", ("loopin", name, lid), want_x)
+                counts[kind] = good if kind not in counts else (counts[kind] and good)
+    ctx.check("R10.4", "first-repetition-only", ok_rng, "parameter-range:" + short(got, 60), c.loc(fn), "for idx in 0..self.coupled.len()",
               "parameters are summed over positions %s; the first repetition is positions 0..coupled.len() (one per distinct layer)" % got)
-    if loops:
-        ih = pat_binds(loops[0]["pat"])[0][1]
-        m = [x for x in walk(loops[0]["body"]) if x.get("k") == "match"]
-        s_ = strip(m[0]["scrut"]) if m else {}
-        ctx.check("R10.4", "indexes-layers", bool(m) and s_.get("k") == "index" and "self.layers" in pretty(s_["b"]) and e4.local_hid(s_["i"]) == ih, "parameter-index", c.loc(fn), "self.layers[idx]")
-        for arm in (m[0]["arms"] if m else []):
-            vp, b = e4.arm_variant(arm)
-            kind = vp.split("::")[-1]
-            if kind in PARAM_FIELDS:
-                ok = pretty(strip(arm["body"])) == "%s.parameters()" % b[0][0]
-                ctx.check("R10.4", "counts:" + kind, ok, "parameter-count:" + kind, c.loc(fn, arm["body"]), "%s.parameters()" % kind)
-        adds = [x for x in walk(loops[0]["body"]) if x.get("k") == "assignop" and x["op"].startswith("Add") and pretty(strip(x["l"])) == "parameters"]
-        ctx.check("R10.4", "summed", len(adds) == 1, "parameter-sum", c.loc(fn), "parameters += ..")
+    ctx.check("R10.4", "indexes-layers", ok_idx and bool(counts), "parameter-index", c.loc(fn), "self.layers[idx]")
+    for kind in PARAM_FIELDS:
+        ctx.check("R10.4", "counts:" + kind, counts.get(kind) is True, "parameter-count:" + kind, c.loc(fn), "%s.parameters()" % kind)
+    ctx.check("R10.4", "summed", ok_sum and counts.get("Maxpool", True) is not False, "parameter-sum", c.loc(fn), "parameters += .. starting from 0")
 
 
 def r4b(ctx):
     """the network-level count delegates to each payload's own parameters(): a block is counted by Feedback::parameters (once per shared layer)"""
+    from .. import e6
     c = ctx.crate
     fn = ctx.fn("network::Layer::parameters")
-    ms = [x for x in walk(fn["body"]) if x.get("k") == "match"]
-    if len(ms) != 1:
-        raise Unestablished("Layer::parameters: expected one match on the layer kind", c.loc(fn))
-    seen = set()
-    for arm in ms[0]["arms"]:
-        vp, b = e4.arm_variant(arm)
-        kind = vp.split("::")[-1]
-        seen.add(kind)
-        body = strip(arm["body"])
-        while body is not None and body.get("k") == "blk" and not body["b"]["stmts"]:
-            body = strip(body["b"]["tail"])
-        payload = {"Dense": "dense::Dense", "Convolution": "convolution::Convolution", "Deconvolution": "deconvolution::Deconvolution",
-                   "Feedback": "feedback::Feedback"}.get(kind)
-        if payload is not None:
-            ok = (body is not None and body.get("k") == "mcall" and body["callee"] == payload + "::parameters" and b and e4.local_hid(body["recv"]) == b[0][1])
-            ctx.check("R10.4", "network-count-delegates:" + kind, ok, "layer-count:" + short(pretty(body), 60), c.loc(fn, arm["body"]), "%s => payload.parameters()" % kind,
-                      "Layer::parameters counts a %s layer as `%s`; a feedback block must be counted by Feedback::parameters (each shared parameter once), "
-                      "other layers by their own parameters()" % (kind, short(pretty(body), 100)))
-        elif kind == "Maxpool":
-            ctx.check("R10.4", "network-count-delegates:Maxpool", e4.lit_value(body) == "0", "layer-count:" + short(pretty(body), 40), c.loc(fn, arm["body"]), "Maxpool => 0")
+    E = e6.Exec(c, fn)
+    paths = [p for p in E.run_fn() if p.exit is None or p.exit[0] == "return"]
+    SELF = ("p", "self")
+    seen = {}
+    for p in paths:
+        vs = e6.variant_of(p)
+        val = p.val if p.exit is None else p.exit[1]
+        if SELF not in vs:
+            seen.setdefault("?", []).append(e6.show(val, 2))
+            continue
+        seen.setdefault(vs[SELF].split("::")[-1], []).append(val)
+    payload = {"Dense": "dense::Dense", "Convolution": "convolution::Convolution", "Deconvolution": "deconvolution::Deconvolution", "Feedback": "feedback::Feedback"}
     for v in c.adts["network::Layer"]["variants"]:
-        if v["name"] not in seen:
-            ctx.bad("R10.4", "network-count-delegates:" + v["name"], "variant-not-counted", c.loc(fn), "")
-    # Network::parameters / Display sum Layer::parameters over self.layers
+        kind = v["name"]
+        vals = seen.get(kind, [])
+        if kind in payload:
+            want = ("call", payload[kind] + "::parameters", (("payload", SELF, "network::Layer::" + kind, 0),))
+        else:
+            want = ("lit", "0")
+        ok = bool(vals) and all(x == want for x in vals)
+        ctx.check("R10.4", "network-count-delegates:" + kind, ok, "layer-count:" + short(";".join(e6.show(x, 2) for x in vals), 60) if vals else "variant-not-counted", c.loc(fn),
+                  "%s => %s" % (kind, "payload.parameters()" if kind in payload else "0"),
+                  "Layer::parameters counts a %s layer as `%s`; a feedback block must be counted by Feedback::parameters (each shared parameter once), "
+                  "other layers by their own parameters()" % (kind, short(";".join(e6.show(x, 2) for x in vals), 100)))
     users = [p_ for p_, f_ in c.fns.items() if f_.get("body") is not None and any(cal == "network::Layer::parameters" for _, cal in calls(f_["body"]))]
     ctx.check("R10.4", "network-count-users", len(users) >= 1, "no-user-of-Layer::parameters", c.loc(fn), "Layer::parameters is what the network reports (%s)" % ",".join(sorted(users)))
 
